@@ -8,6 +8,8 @@ code by the verif-tag wrapper at every Series/Next.
 import PromqlVerif.Proofs.PlanContract
 import PromqlVerif.Proofs.Grid
 import PromqlVerif.Proofs.CoalesceProof
+import PromqlVerif.Proofs.StreamsProof
+import PromqlVerif.Gen.Facts
 namespace PromqlVerif.C18
 open PromqlVerif Val
 
@@ -115,5 +117,102 @@ theorem leaf_end_of_stream_is_final (w : Window) (n : Nat) (cur : Int) (h : cur 
   cases fuel with
   | zero => rfl
   | succ k => simp [leafStream, h]
+
+/-! ### batch-level (pull) execution of whole plans (`Streams.lean`) -/
+
+open Streams in
+/-- **pull execution is the per-step semantics, for every operator of every plan.** A plan is a
+tree of the engine's pull patterns (leaf with its own cursor; one child step by step; two children
+paired by position, ending when either ends; vector child plus a scalar child that is only pulled
+when the vector child delivered; coalesce; the step-invariant cache). If its leaves share the query
+window (`Al k stop cur`), then the `i`-th call of `Next` of the root - and, since the statement is by
+induction over the tree, of every operator inside - returns exactly the batch the per-step
+denotation prescribes at cursor `cur + step * B * i`: one step vector per step of the grid, in step
+order, at most `B` per batch, each carrying `den p t`. In particular siblings are aligned position
+by position, so the engine's positional pairing (`lhs[i]` with `rhs[i]`, `scalars[i]` for the
+i-th vector, `out[i]` in the coalesce) pairs step vectors of the same timestamp and never indexes
+out of range. -/
+theorem pull_execution_is_per_step_semantics {α : Type} (d0 : α) (k : Cfg) (hs : 0 < k.step) (hB : 0 < k.B)
+    (n : Nat) (p : Plan α) (stop cur : Int) (hal : Al k stop cur p) :
+    run k n p = (List.range n).map fun (i : Nat) => out k stop (cur + k.step * k.B * (i : Int)) (den d0 p) :=
+  run_spec d0 k hs hB n p stop cur hal
+
+open Streams in
+/-- one call: the batch, the successor plan aligned at the next cursor, the denotation unchanged -/
+theorem next_returns_the_prescribed_batch {α : Type} (d0 : α) (k : Cfg) (hs : 0 < k.step) (hB : 0 < k.B)
+    (p : Plan α) (stop cur : Int) (hal : Al k stop cur p) :
+    (next k p).1 = out k stop cur (den d0 p) ∧ Al k stop (cur + k.step * k.B) (next k p).2 ∧
+      den d0 (next k p).2 = den d0 p :=
+  next_spec d0 k hs hB p stop cur hal
+
+open Streams in
+/-- **end of stream is final for every operator of every plan** (not only for the leaves): once the
+window's cursor is past the end every later `Next` returns nil - also for a child that was not
+pulled when its sibling ended first -/
+theorem end_of_stream_is_final_everywhere {α : Type} (d0 : α) (k : Cfg) (hs : 0 < k.step) (hB : 0 < k.B)
+    (n : Nat) (p : Plan α) (stop cur : Int) (hal : Al k stop cur p) (hend : stop < cur) :
+    ∀ o ∈ run k n p, o = none :=
+  ended_stays_ended d0 k hs hB n p stop cur hal hend
+
+open Streams in
+/-- every batch of every operator: at most the batch size, nothing past the window's end -/
+theorem every_batch_bounded {α : Type} (d0 : α) (k : Cfg) (hs : 0 < k.step) (hB : 0 < k.B)
+    (n : Nat) (p : Plan α) (stop cur : Int) (hal : Al k stop cur p) :
+    ∀ b, some b ∈ run k n p → b.length ≤ k.B ∧ ∀ x ∈ b, x.1 ≤ stop :=
+  Streams.batches_bounded d0 k hs hB n p stop cur hal
+
+open Streams in
+/-- non-vacuity: `(m + clamp_min(-n, s @ 7)) ` as a plan over the window 0..25 (step 1, batches of
+10) is aligned, and delivers 10, 10 and 6 step vectors, then nil twice -/
+example :
+    let p : Plan Int := .zip (fun _ _ a b => a + b) (.leaf (fun t => t) 25 0 10)
+      (.fn true (fun _ a s => max a (s.getD 0)) (.map (fun _ a => -a) (.leaf (fun t => 2 * t) 25 0 10))
+        (.inv 25 0 none 0 7 (.leaf (fun t => 100 + t) 7 7 1)))
+    Al ⟨1, 10⟩ 25 0 p ∧ (run ⟨1, 10⟩ 5 p).map (fun o => o.map List.length) = [some 10, some 10, some 6, none, none] ∧
+      (run ⟨1, 10⟩ 1 p).head? = some (some ((List.range 10).map fun (i : Nat) => ((i : Int), (i : Int) + max (-(2 * (i : Int))) 107))) := by
+  refine ⟨by simp [Al, At], by decide, by decide⟩
+
+open Streams in
+/-- what the alignment hypothesis excludes: a leaf that stands one batch ahead of its sibling (a
+child pulled once too often) - the binary operator then pairs step vectors of different timestamps
+by position -/
+example :
+    let p : Plan Int := .zip (fun _ _ a b => a - b) (.leaf (fun t => t) 25 0 10) (.leaf (fun t => t) 25 10 10)
+    (run ⟨1, 10⟩ 1 p).head? = some (some ((List.range 10).map fun (i : Nat) => ((i : Int), (-10 : Int)))) := by
+  decide
+
+open Streams in
+/-- **the selectors' own batching (`Options.NumSteps()`) keeps them aligned with the operators that
+use the batch size** (literals, `time()`, the step-invariant operator): a leaf at the window's
+start with `numStepsBatch w B` steps per batch satisfies the alignment hypothesis - it is the batch
+size, or the total number of steps, in which case the first batch finishes the window. The formula
+is compared with the real `Options.NumSteps()` (windows with sub-millisecond parts included) by the
+`kpull` correspondence. -/
+theorem selector_batching_is_aligned {α : Type} (w : Window) (hs : 0 < w.step) (hle : w.start ≤ w.stop)
+    (B : Nat) (f : Int → α) :
+    Al ⟨w.step, B⟩ w.stop w.start (.leaf f w.stop w.start (numStepsBatch w B)) :=
+  numSteps_leaf_aligned w hs hle B f
+
+open Streams in
+/-- what a wrong step count does (6 steps 0..5, batches of 10, a selector that believes there are
+5): the selector needs two batches where the literal needs one, and the binary operator pairs the
+selector's second batch with nothing - the last step is lost -/
+example :
+    let p : Plan Int := .zip (fun _ _ a b => a + b) (.leaf (fun t => t) 5 0 5) (.leaf (fun _ => 100) 5 0 10)
+    (run ⟨1, 10⟩ 3 p).map (fun o => o.map List.length) = [some 5, none, none] := by decide
+
+/-- **the operators of one plan share one window** (regenerated from the source): every argument of
+every call in `execution/execution.go` that mentions the query's options is the options value
+itself, the options with `End := Start` (below a step-invariant operator: the one-step window of
+the `inv` node), or one of the window's fields handed to a remote query; `WithEndTime` copies the
+options and overwrites `End` only; and `NumSteps()` reads the millisecond values the cursors walk
+on. Nothing else is handed down, so every leaf of a plan starts at `opts.Start` on the same grid:
+the alignment hypothesis `Al` of the theorems above holds for the plans `execution.New` builds. -/
+theorem operators_share_the_query_window :
+    (Gen.optsArgs.all fun a => ["opts", "opts.WithEndTime(opts.Start)", "opts.Start", "opts.End", "opts.Step",
+      "opts.Step.Milliseconds()", "&promql.QueryOpts{LookbackDelta: opts.LookbackDelta}"].contains a) = true ∧
+    Gen.withEndTimeWrites = ["result := *o", "result.End = end"] ∧
+    Gen.numStepsReads = ["o.End.UnixMilli", "o.Start.UnixMilli", "o.Step.Milliseconds", "o.StepsBatch"] := by
+  decide
 
 end PromqlVerif.C18
